@@ -1,5 +1,5 @@
 """Which contract modules carry obligations for which property."""
-_CODECS = ["contracts.at4_ctrl_status", "contracts.at5_ctrl_status", "contracts.at5_ext"]
+_CODECS = ["contracts.at4_ctrl_status", "contracts.at4_ext_timer", "contracts.at5_ctrl_status", "contracts.at5_ext"]
 _SOCK = ["contracts.sock_queue", "contracts.sock_conn"]
 _HB = ["contracts.heartbeat"]
 _FL = ["contracts.float_lemmas"]
